@@ -20,7 +20,7 @@ ANCHORS = ["decaylanguage.decay.decay:DecayChain.to_dict", "decaylanguage.decay.
            "decaylanguage.decay.decay:DaughtersDict.__init__", "decaylanguage.decay.decay:DaughtersDict.to_list"]
 WORKERS = {"quick": 4, "thorough": 16}
 WTESTS = {"groups": ['chain_to_dict', 'mode_to_dict'], "tests": ['tests/decay', 'tests/utils']}
-REQUIRED = {"sub-decay-without-daughters": 10, "same-decaying-twice-in-one-fs": 20, "same-decaying-two-depths": 20, "metadata-nested>=2": 20, "multiplicity-4": 20,
+REQUIRED = {"branching-fractions-with-17-digits-or-tiny": 20, "sub-decay-without-daughters": 10, "same-decaying-twice-in-one-fs": 20, "same-decaying-two-depths": 20, "metadata-nested>=2": 20, "multiplicity-4": 20,
             "parser-chain": 20, "queried-before-to_dict": 50, "parser-chain-repeated-daughter": 5, "pdgid-all-ids": 1, "four-constructions": 100, "zero-or-negative-count-in-mapping": 10, "mode-edited-in-place-then-converted-again": 20, "mode-built-from-a-final-state-object-the-caller-edits-afterwards": 20,
             "C11.chain.to_dict.roundtrip": 300, "C11.mode.to_dict.roundtrip": 300}
 EXHAUSTIVE_NOTE = "all PDG IDs of the EvtGen table go through DecayMode.from_pdgids (sharded over workers); tree shapes <= 5 (quick) / 6 (thorough) enumerated"
@@ -314,6 +314,12 @@ def run(ctx):
     for _ in range(ctx.pick(300, 3000)):
         n = rng.choice([1, 2, 3, 4, 5, 6, 8, 12])
         ch = chains.random_chain(rng, n, max_mult=rng.choice([2, 3, 4]), empty=0.12)
+        if rng.random() < 0.25:
+            # branching fractions with all the digits a double has, and at the small end of the range: the round trip keeps the number itself
+            for k in ch["types"]:
+                if rng.random() < 0.6:
+                    ch["types"][k][0] = rng.choice([rng.random(), 1 / 3, 0.1 + 0.2, 2.5e-17, 1e-300, 4.9e-324, 0.9999999999999999, 1.2345678901234567e-5])
+            ctx.hit("branching-fractions-with-17-digits-or-tiny")
         if any(not v[1] for v in ch["types"].values()):
             ctx.hit("sub-decay-without-daughters")
         order = list(ch["types"])
